@@ -134,6 +134,22 @@ func DefaultContact() J {
 	}
 }
 
+// RefreshedContact is the contact carried by "refresh:" resumes unless a root overrides it: the
+// same person changed behind the engine's back.
+func RefreshedContact() J {
+	return J{
+		"uuid":       UUID("contact"),
+		"id":         1234,
+		"name":       "Zed",
+		"language":   "fra",
+		"status":     "active",
+		"created_on": "2020-01-01T12:00:00.000000000Z",
+		"urns":       []any{"tel:+12065557777"},
+		"groups":     []any{J{"uuid": GroupB, "name": "Group B"}},
+		"fields":     J{"age": J{"text": "12", "number": 12}},
+	}
+}
+
 // DefaultEnv is the environment JSON used unless a check varies it.
 func DefaultEnv() J {
 	return J{
